@@ -13,12 +13,12 @@ from harness import corpus, langreplay, lexreplay
 def lexer_stages(chk, only=None):
     q = chk.quick
     modes = [
-        ("whole", 4 if q else 5, (), None),
-        ("string", 5 if q else 7, ("Quote",), ["Quote", "Bslash", "L_u", "L_bf", "L_hex", "L_nrt", "L_e", "D19", "LF", "Blank",
+        ("whole", 4, (), None),   # L=5 is 2.4 M behaviours (> 10 GB of Python objects): not worth it, deeper interiors below
+        ("string", 5 if q else 6, ("Quote",), ["Quote", "Bslash", "L_u", "L_bf", "L_hex", "L_nrt", "L_e", "D19", "LF", "Blank",
                                                  "UDigit", "ULineSep", "UAlnum", "L_other", "Slash", "Ctrl"]),
         ("unicode-escape", 8 if q else 9, ("Quote", "Bslash", "L_u"), ["D0", "D19", "L_hex", "L_x", "UDigit", "UAlnum", "L_other", "Quote"]),
-        ("block", 7 if q else 9, ("Quote", "Quote", "Quote"), ["Quote", "Bslash", "LF", "CR", "Blank", "ULineSep", "UBlank", "L_other", "Ctrl"]),
-        ("number", 5 if q else 7, (), ["Minus", "Plus", "Dot", "D0", "D19", "L_e", "UDigit", "L_other", "Blank", "Punct"]),
+        ("block", 7 if q else 8, ("Quote", "Quote", "Quote"), ["Quote", "Bslash", "LF", "CR", "Blank", "ULineSep", "UBlank", "L_other", "Ctrl"]),
+        ("number", 5 if q else 6, (), ["Minus", "Plus", "Dot", "D0", "D19", "L_e", "UDigit", "L_other", "Blank", "Punct"]),
     ]
     total = {}
     for name, L, prefix, alpha in modes:
